@@ -25,6 +25,7 @@
             r == handles(old(state)@).contains_key(key),
             submap(handles(final(state)@), handles(old(state)@)),
             !handles(final(state)@).contains_key(key),
+            closed_release(handles(old(state)@), handles(final(state)@)),
             is_sub(final(state)@, skey("handles"@)),
             final(state)@.remove(skey("handles"@)) =~= old(state)@.remove(skey("handles"@)),
     { unimplemented!() }
